@@ -148,7 +148,14 @@ func c03Run(c c03Case) []mc.Finding {
 		if !c.GenSel {
 			kit.Labels(z, "app", "x")
 		}
-		return kit.M{"status": kit.M{}, "children": kit.L{z}}
+		// ... and a second one that already carries what the controller would otherwise add: the generated
+		// selector label (a hook echoing the labels of an observed child) - the namespace is defaulted all the same
+		y := kit.Copy(z)
+		kit.Field(y, "y", "metadata", "name")
+		if c.GenSel {
+			kit.Labels(y, "controller-uid", kit.Str(req, "parent", "metadata", "uid"))
+		}
+		return kit.M{"status": kit.M{}, "children": kit.L{z, y}}
 	})
 	w.Hooks.Handle("/cc/sync", answer)
 	w.Hooks.Handle("/cc/finalize", answer)
@@ -243,17 +250,19 @@ func c03Run(c c03Case) []mc.Finding {
 			wantNS = ""
 		}
 	}
-	posted := false
-	for _, r := range w.Sim.Log {
-		if r.Verb == "create" && r.Kind == zk && r.Name == "z" {
-			posted = true
-			if r.NS != wantNS || r.Code != 201 {
-				bad("namespace-default", "new child created in namespace %q (code %d), want %q", r.NS, r.Code, wantNS)
+	for _, zn := range []string{"z", "y"} {
+		posted := false
+		for _, r := range w.Sim.Log {
+			if r.Verb == "create" && r.Kind == zk && r.Name == zn {
+				posted = true
+				if r.NS != wantNS || r.Code != 201 {
+					bad("namespace-default", "new child %s created in namespace %q (code %d), want %q", zn, r.NS, r.Code, wantNS)
+				}
 			}
 		}
-	}
-	if !posted {
-		bad("no-create", "the new desired child was not created")
+		if !posted {
+			bad("no-create", "the new desired child %s was not created (err=%v)", zn, err)
+		}
 	}
 	return f
 }
